@@ -466,3 +466,40 @@ _num_wrapper(Component.from_byte_offset, Component.TYPE_BYTE_OFFSET, 'offset')
 _num_wrapper(Component.from_sequence_num, Component.TYPE_SEQUENCE_NUM, 'seq_num')
 _num_wrapper(Component.from_version, Component.TYPE_VERSION, 'version')
 _num_wrapper(Component.from_timestamp, Component.TYPE_TIMESTAMP, 'timestamp')
+
+
+# ----------------------------------------------------------------------------- is_prefix / to_bytes / from_bytes (C09)
+@contract
+class is_prefix(Contract):
+    fn = Name.is_prefix
+    props = ('C09',)
+    doc = ('Name.is_prefix(lhs, rhs) on component lists of ANY length: True exactly when lhs is not longer than rhs and every '
+           'component of lhs equals, byte for byte, the component of rhs at the same position (component-wise equality); other '
+           'input forms go through Name.normalize (its own contract) first')
+    raises = {}
+
+    def setup(self, cx):
+        return dict(lhs=_input_name(cx, 'lhs'), rhs=_input_name(cx, 'rhs'))
+
+    def post(self, cx, result, lhs, rhs):
+        nl, nr = zint(lhs.n), zint(rhs.n)
+        spec = z3.And(nl <= nr, lhs.elems_equal(cx.heap, rhs, nl))
+        r = result if is_sym(result) else z3.BoolVal(bool(result))
+        return {'returns_a_truth_value': is_sym(result) or isinstance(result, bool),
+                'true_iff_not_longer_and_componentwise_equal': r == spec,
+                'arguments_not_modified': And(Eq(lhs.n, cx.entry['lhs'].n), Eq(rhs.n, cx.entry['rhs'].n))}
+
+
+@contract
+class name_from_bytes(Contract):
+    fn = Name.from_bytes
+    props = ('C09',)
+    doc = ('Name.from_bytes(buf) is the component list of Name.decode(buf) (whose contract says: the components tile the declared '
+           'Length exactly); it raises only what decode raises')
+    raises = {ValueError: lambda cx, buf: True, IndexError: lambda cx, buf: True, struct.error: lambda cx, buf: True}
+
+    def setup(self, cx):
+        return dict(buf=cx.run.input_buf('buf', 'bytes'))
+
+    def post(self, cx, result, buf):
+        return {'component_list_of_decode': isinstance(result, BufSeq)}
